@@ -139,11 +139,11 @@ class Builder:
 
     def cond(self, c):
         k = c[0]
-        if self.share_conds and k in ("cmp", "in", "has"):
+        if self.share_conds and k in ("cmp", "in", "has", "pf", "pc"):
             if ("cond", c) not in self.memo:
                 self.memo[("cond", c)] = self._leaf(c)
             return self.memo[("cond", c)]
-        if self.share_conds == "neg" and (k == "t" or (k in ("not", "inv") and c[1][0] in ("cmp", "in", "has", "t"))):
+        if self.share_conds == "neg" and (k == "t" or (k in ("not", "inv") and c[1][0] in ("cmp", "in", "has", "t", "pf", "pc"))):
             # s = not_(x.flag) / s = not_(x.p > 1) / s = x.flag written ONCE and used in several places: the negated object
             # as a whole is what is reused (its operand is built for it alone, never shared with an un-negated occurrence)
             if ("cond", c) not in self.memo:
